@@ -109,6 +109,13 @@ theorem vol_pillar (x0 dx y0 dy : K) (Z : Nat → K) :
       = dx * dy * (((Z 4 - Z 0) + (Z 5 - Z 1) + (Z 6 - Z 2) + (Z 7 - Z 3)) / 4) :=
   signedVol_pillar x0 dx y0 dy Z
 
+/-- Sheared box (parallelepiped with edge vectors `a, b, c`): `signedVol = det [a b c]`.  All
+six rows of the `permutation` table and their alternating sign enter here. -/
+theorem vol_parallelepiped (ox ax bx cx oy ay «by» cy oz az bz cz : K) :
+    signedVol (paraCoord ox ax bx cx) (paraCoord oy ay «by» cy) (paraCoord oz az bz cz)
+      = ax * («by» * cz - bz * cy) - bx * (ay * cz - az * cy) + cx * (ay * bz - az * «by») :=
+  signedVol_parallelepiped ox ax bx cx oy ay «by» cy oz az bz cz
+
 /-- **Additivity under k-subdivision, full strength**: for *arbitrary* corner positions (24 free
 coordinates, twisted cells included) the two cells obtained by cutting at the midpoints of the
 four vertical edges have signed volumes adding up to the signed volume of the cell. -/
